@@ -127,35 +127,85 @@ func runC05(c *Ctx) {
 		})
 		c.Check(okRC && nRC > 0, "C05.cert-bound", "Result.RemoteCert<-verifier(rc)", c.P.Pos(fn.Pos()), "reported certificate is the verifier's output for the recombined certificate", "the certificate reported in the Result is not the one the verifier accepted")
 	}
-	// ---- ProcessPacket / completion
-	if fn := c.Func(Ref{"handshake", "Machine", "ProcessPacket"}); fn != nil {
-		comp := callSinks(fn, "completed()", callTo(Ref{"handshake", "Machine", "completed"}))
-		c.requireGuards("C05.complete", fn, comp, "completed()", gErrNil("requireComplete() == nil", callTo(Ref{"handshake", "Machine", "requireComplete"})))
-		// both keys non-nil at each completed(a,b)
-		for i, s := range comp {
-			a := callArgs(s.Instr.(ssa.CallInstruction))
-			for k := 1; k <= 2; k++ {
-				kv := a[k]
-				g := gValNotNil(fmt.Sprintf("key#%d != nil", k), func(v ssa.Value) bool { return v == kv })
-				ok, _, path := c.mustPass(fn, s, g)
-				cons := fmt.Sprintf("ProcessPacket:completed#%d:key%d-nonnil", i, k)
-				if ok {
-					c.OK("C05.complete", cons, "guarded")
-				} else {
-					c.Bad("C05.complete", cons, c.instrPos(s.Instr), "completed() can be reached with a nil cipher key", path...)
+	// ---- ProcessPacket / completion (completed() may be called from ProcessPacket or from a helper it delegates to)
+	if pp := c.Func(Ref{"handshake", "Machine", "ProcessPacket"}); pp != nil {
+		compRef := Ref{"handshake", "Machine", "completed"}
+		nComp := 0
+		for _, fn := range c.moduleFuncs() {
+			if fn.Pkg == nil || fn.Pkg != pp.Pkg {
+				continue
+			}
+			comp := callSinks(fn, "completed()", callTo(compRef))
+			if len(comp) == 0 {
+				continue
+			}
+			c.Funcs[fn.String()] = true
+			nComp += len(comp)
+			c.requireGuards("C05.complete", fn, comp, "completed()", gErrNil("requireComplete() == nil", callTo(Ref{"handshake", "Machine", "requireComplete"})))
+			// both keys non-nil at each completed(a,b)
+			for i, s := range comp {
+				a := callArgs(s.Instr.(ssa.CallInstruction))
+				for k := 1; k <= 2; k++ {
+					kv := a[k]
+					g := gValNotNil(fmt.Sprintf("key#%d != nil", k), func(v ssa.Value) bool { return v == kv })
+					ok, _, path := c.mustPass(fn, s, g)
+					cons := fmt.Sprintf("%s:completed#%d:key%d-nonnil", fn.Name(), i, k)
+					if ok {
+						c.OK("C05.complete", cons, "guarded")
+					} else {
+						c.Bad("C05.complete", cons, c.instrPos(s.Instr), "completed() can be reached with a nil cipher key", path...)
+					}
 				}
 			}
 		}
-		// returned *Result non-nil only from completed()
-		okR := true
-		for _, b := range fn.Blocks {
-			if ret, isR := b.Instrs[len(b.Instrs)-1].(*ssa.Return); isR {
-				r := retResult(ret, 1)
-				if isNilConst(r) {
-					continue
+		if nComp == 0 {
+			c.Unknown("C05.complete", "handshake:completed()", "no call of completed() found in the package")
+		}
+		// returned *Result non-nil only from completed(), directly or as the matching result of a same-package helper
+		var fromCompleted func(v ssa.Value, d int) bool
+		fromCompleted = func(v ssa.Value, d int) bool {
+			v = stripValue(v)
+			if isNilConst(v) {
+				return true
+			}
+			if d > 3 {
+				return false
+			}
+			if phi, ok := v.(*ssa.Phi); ok {
+				for _, e := range phi.Edges {
+					if e != ssa.Value(phi) && !fromCompleted(e, d+1) {
+						return false
+					}
 				}
-				call, _ := callOf(r)
-				if call == nil || !matchFunc(calleeObj(call), Ref{"handshake", "Machine", "completed"}) {
+				return true
+			}
+			call, idx := callOf(v)
+			if call == nil {
+				return false
+			}
+			if matchFunc(calleeObj(call), compRef) {
+				return true
+			}
+			h := call.Common().StaticCallee()
+			if h == nil || h.Pkg != pp.Pkg || h.Blocks == nil {
+				return false
+			}
+			if idx < 0 {
+				idx = 0
+			}
+			for _, b := range h.Blocks {
+				if ret, isR := b.Instrs[len(b.Instrs)-1].(*ssa.Return); isR {
+					if idx >= len(ret.Results) || !fromCompleted(ret.Results[idx], d+1) {
+						return false
+					}
+				}
+			}
+			return true
+		}
+		okR := true
+		for _, b := range pp.Blocks {
+			if ret, isR := b.Instrs[len(b.Instrs)-1].(*ssa.Return); isR {
+				if !fromCompleted(retResult(ret, 1), 0) {
 					okR = false
 					c.Bad("C05.complete", "ProcessPacket:result-source", c.instrPos(ret), "a non-nil Result is returned that is not completed()'s value")
 				}
